@@ -342,6 +342,18 @@ func (r Relation) Format(f fmt.State, verb rune) {
 	fu.WriteString(f, "{")
 
 	attrs := r.attrs.GetSorted()
+	for _, attr := range attrs {
+		if !identRE.MatchString(attr) {
+			// The {|...|} heading only takes identifiers: print the rows as
+			// tuples, whose names can be quoted.
+			for i, o := r.ArrayEnumerator(), 0; i.MoveNext(); o++ {
+				writeSep(f, o, ", ")
+				fu.Format(i.Current(), f, verb)
+			}
+			fu.WriteString(f, "}")
+			return
+		}
+	}
 	fu.Fprintf(f, "|%s| ", strings.Join(attrs, ", "))
 	projection := r.projectionBasedOnNames(attrs)
 	notFirst := false
